@@ -16,6 +16,23 @@ chk("C20", "model_checking",
     "Durability below rename(2) is not observable in-process; failing write = missing state directory + restart; secp256k1/tendermint sign-bytes trusted.",
     "explicit-state exploration of request sequences with reload/write-fault injection on the real signer (BFS to fixpoint + DFS)", "§5 C20")
 
+chk("C01", "model_checking",
+    "Every history within 1 (all slots) / 2 (core slots; thorough: all) deviations of dense default histories, in four genesis variants, is executed on independent replicas (other directory, one of them restarted once; thorough: a third in another OS process) and all consensus-visible responses are compared call by call. Exhaustive in the history dimension, which is where 'only on particular histories' bugs live.",
+    "Map-iteration order is exercised on every history but sampled, not enumerated; harness feeds byte-identical requests.",
+    "deviation-bounded exhaustive history exploration on the real app, twin-replica differential oracle", "§5 C01")
+chk("C05", "model_checking",
+    "49 failing templates (one per failure reason x type, incl. 256-bit boundary amounts and balance-covers-amount-but-not-fee senders) inserted at EVERY position of the dense history in three genesis variants (thorough: all ordered pairs); the replica with the insertion must agree with the one without on every later response and on the complete committed state.",
+    "Empty account records materialised for a looked-up receiver are ignored (not a change of balance/nonce/doc); app hash not compared.",
+    "exhaustive insertion of failing transactions at every position, twin oracle over the full state", "§5 C05")
+chk("C06", "model_checking",
+    "Schedule exploration at ABCI-call granularity: every placement of 1 injected CheckTx/Query (23-call menu) into every gap of the dense history (2 genesis variants, one with the stake limiter live) and every pair of state-touching CheckTx placements (quick: nearby gaps; thorough: all); the loaded replica's DeliverTx/EndBlock/Commit responses must equal the quiet replica's and the mempool overlays must be empty after each commit.",
+    "ABCI calls are mutually atomic (single client mutex) - assumed here, validated by a separate race pass.",
+    "preemption-bounded schedule exploration of injected CheckTx/Query calls, twin oracle", "§5 C06")
+chk("C07", "model_checking",
+    "For each history of a family (dense history in 2 variants + every single appended deviation from a stake/governance menu; a variant whose proposal changes the validator limits; the small-stake/evidence/jailing history; a 12-block history crossing the reward-hash fold at version 10) every restart set over the block boundaries up to the tier's size is executed (directory copy, new application, Info) and compared call by call with the replica that kept running.",
+    "Restart = kill after Commit returned; graceful in-place reopen is impossible in-process (Stop() leaves 3 stores open).",
+    "exhaustive enumeration of restart sets x deviation-bounded histories, twin oracle", "§5 C07")
+
 ALL = ["C%02d" % i for i in range(1, 21)]
 PENDING_REASON = "check under construction in this round (model-checking harness not yet registered); see DESIGN.md §5"
 
